@@ -196,9 +196,12 @@ impl<'a, F: IVP> SolOut for DefaultSolOut<'a, F> {
                         let mut fa = g_prev;
                         let mut fb = g_curr;
 
-                        let (event_t, event_y) = if fa.abs() <= XTOL {
+                        // An end point answers only where the event function vanishes there exactly
+                        // (as in brentq): XTOL bounds the abscissa, not the value of g, so a small
+                        // event function must still be refined to its root.
+                        let (event_t, event_y) = if fa == 0.0 {
                             (a, self.yold.clone())
-                        } else if fb.abs() <= XTOL {
+                        } else if fb == 0.0 {
                             (b, y.to_vec())
                         } else {
                             // Brent's method
